@@ -3141,7 +3141,8 @@ func guardedFieldsRule(r *Report, rel, typ, mutex string, fields []string, why s
 				ok = ls.heldW(a.Base + "." + mutex)
 			}
 			how := "under " + mutex + " " + ls.String()
-			if !ok && len(a.Fn.Params) > 0 && a.Base == a.Fn.Params[0].Name() {
+			if !ok && len(a.Fn.Params) > 0 && (a.Base == a.Fn.Params[0].Name() || strings.HasPrefix(a.Base, a.Fn.Params[0].Name()+".")) {
+				suffix := a.Base[len(a.Fn.Params[0].Name()):]
 				// a helper that requires the lock: every static caller holds it on the same receiver
 				callers := w.staticCallers(a.Fn)
 				all := len(callers) > 0 && len(w.dynamicCallers(a.Fn)) == 0
@@ -3151,7 +3152,7 @@ func guardedFieldsRule(r *Report, rel, typ, mutex string, fields []string, why s
 						st[cf] = lockStates(cf, nil)
 					}
 					cls := st[cf][c]
-					path := pathOf(c.Common().Args[0]) + "." + mutex
+					path := pathOf(c.Common().Args[0]) + suffix + "." + mutex
 					if a.Write && !cls.heldW(path) || !a.Write && !cls.held(path) {
 						all = false
 					}
@@ -3206,8 +3207,13 @@ func decide(b *ssa.BasicBlock, leaf func(ssa.Value) (bool, bool)) (*ssa.BasicBlo
 		// only pure condition blocks are walked through (phis of boolean merges, the compared loads)
 		if b != prev {
 			for _, in := range b.Instrs[:len(b.Instrs)-1] {
-				switch in.(type) {
-				case *ssa.Phi, *ssa.BinOp, *ssa.UnOp, *ssa.FieldAddr, *ssa.DebugRef, *ssa.Call:
+				switch x := in.(type) {
+				case *ssa.Phi, *ssa.BinOp, *ssa.UnOp, *ssa.FieldAddr, *ssa.DebugRef, *ssa.Convert:
+				case *ssa.Call:
+					// length queries only: any other call is an effect, i.e. an outcome
+					if bi, isB := x.Call.Value.(*ssa.Builtin); !(isB && bi.Name() == "len") && calleeName(x) != "(*bytes.Buffer).Len" {
+						return b, true
+					}
 				default:
 					return b, true
 				}
